@@ -456,6 +456,11 @@ impl Check for C14 {
     fn nondeterministic(&self) -> bool {
         true
     }
+    fn fail_fast_fixed(&self) -> bool {
+        // after a deadlock inside the cache every further build of the process may hang: the failing
+        // fixed case is reported at once instead of being shrunk
+        true
+    }
     fn fixed_cases(&self, thorough: bool) -> Vec<Case> {
         // cache churn: some threads re-build a few long-lived keys in a tight loop while others
         // insert thousands of new keys (a cache with a size limit / eviction, or a lookup split
